@@ -104,7 +104,10 @@ func c12Worker(w *W) {
 	}
 	if w.Spec.Kind == "missing" {
 		// a requested name that no configuration defines: Refresh must fail
-		h := log.GetLogger("nosuchlogger")
+		// (other workers of this kind ask for names that are paths INSIDE a configured logger - "other.tags",
+		// "root.appenderRef", "other.type": a key below a logger is not a logger)
+		missing := w.Arg("name", "nosuchlogger")
+		h := log.GetLogger(missing)
 		_ = h
 		for i, cfg := range []map[string]string{
 			{"appender.a.type": "VRec", "logger.other.type": "Logger", "logger.other.tags": "c12unused", "logger.other.appenderRef.ref": "a"},
@@ -117,9 +120,9 @@ func c12Worker(w *W) {
 			if pv != nil {
 				w.Violate("C12:missing-name-panic", fmt.Sprintf("Refresh panicked: %v", pv), cfg)
 			} else if err == nil {
-				w.Violate("C12:missing-name-accepted", "Refresh succeeded although the requested logger name 'nosuchlogger' is not configured", cfg)
+				w.Violate("C12:missing-name-accepted", "Refresh succeeded although the requested logger name '"+missing+"' is not configured", cfg)
 			} else {
-				w.Distinct(fmt.Sprintf("missing-name|cfg%d", i))
+				w.Distinct(fmt.Sprintf("missing-name|%s|cfg%d", missing, i))
 			}
 			log.Destroy()
 		}
@@ -127,7 +130,7 @@ func c12Worker(w *W) {
 		if pv, _ := catch(func() { _, _ = h.Write([]byte("id-m0x0-1|0|")) }); pv != nil {
 			w.Violate("C12:unbound-handle-panic", fmt.Sprintf("unbound handle panicked: %v", pv), nil)
 		}
-		w.Sample(map[string]any{"case": "handle 'nosuchlogger' requested, three configurations without it"})
+		w.Sample(map[string]any{"case": "handle '" + missing + "' requested, three configurations without it"})
 		return
 	}
 	names := []string{"w1", "w2", "w3", "root"}
@@ -424,6 +427,11 @@ func init() {
 				specs = append(specs, s)
 			}
 			specs = append(specs, d.NewSpec("missing", "missing", 0, 1))
+			for i, nm := range []string{"other.tags", "root.appenderRef", "other.type", "other.appenderRef.ref", "Other", "root.", "appender.a"} {
+				ms := d.NewSpec("missing", fmt.Sprintf("missing-%d", i), 0, 1)
+				ms.Args["name"] = nm
+				specs = append(specs, ms)
+			}
 			// discard policies: whatever is delivered after a queue overflow is still verbatim, at most once, in call order
 			for i := 0; i < int(d.Pick(3, 8)); i++ {
 				s := d.NewSpec("overflow", fmt.Sprintf("ovf-%d", i), 70+i, 16)
